@@ -300,6 +300,13 @@ fn check_expr(e: &WExpr) -> (u64, Vec<String>) {
         if got != want {
             bad.push(format!("record with level {} target {} reached sinks {:?}; the expression denotes {:?}", m.level(), m.target(), got, want));
         }
+        // a sink is asked for a writer exactly when the record is routed to it (a level bound or a
+        // predicate that excludes the record does not consult the factory underneath it)
+        let mut asked: Vec<u8> = log.iter().filter(|e| e.kind == "make_for" || e.kind == "make").map(|e| e.sink).collect();
+        asked.sort();
+        if asked != want {
+            bad.push(format!("record with level {} target {}: sinks {:?} were asked for a writer; the expression routes the record to {:?}", m.level(), m.target(), asked, want));
+        }
         // every sink that was asked for a writer was asked with this record's metadata
         for x in log.iter().filter(|e| e.kind == "make") {
             bad.push(format!("sink {} was asked make_writer() without the metadata for level {} target {}", x.sink, m.level(), m.target()));
@@ -336,25 +343,33 @@ fn workload(depth: u8) {
     fn xp(p: &tracing::Span) {
         tracing::event!(name: "xp_event", target: "tgt", parent: p, tracing::Level::INFO, "explicit parent");
     }
+    // ... and, after a value was recorded on the outermost span while the inner ones stay entered,
+    // one more event from the innermost span
+    fn later(s1: &tracing::Span) {
+        s1.record("late", 7);
+        tracing::event!(name: "later_event", target: "tgt", tracing::Level::INFO, "after the record");
+    }
     match depth {
         0 => inner(),
         1 => tracing::span!(tracing::Level::INFO, "s1", a = 1).in_scope(inner),
         2 => {
-            let s1 = tracing::span!(tracing::Level::INFO, "s1", a = 1);
+            let s1 = tracing::span!(tracing::Level::INFO, "s1", a = 1, late = tracing::field::Empty);
             s1.in_scope(|| {
                 tracing::span!(tracing::Level::INFO, "s2", b = "two").in_scope(|| {
                     inner();
-                    xp(&s1)
+                    xp(&s1);
+                    later(&s1)
                 })
             })
         }
         _ => {
-            let s1 = tracing::span!(tracing::Level::INFO, "s1", a = 1);
+            let s1 = tracing::span!(tracing::Level::INFO, "s1", a = 1, late = tracing::field::Empty);
             s1.in_scope(|| {
                 tracing::span!(tracing::Level::INFO, "s2", b = "two").in_scope(|| {
                     tracing::span!(tracing::Level::INFO, "s3", c = true).in_scope(|| {
                         inner();
-                        xp(&s1)
+                        xp(&s1);
+                        later(&s1)
                     })
                 })
             })
@@ -443,7 +458,7 @@ fn check_shape(c: &ShapeCfg) -> (u64, Vec<String>) {
     let mut bad = vec![];
     // expected records: span lifecycle points for each of `depth` spans + 1 event
     let per_span = (c.span_events & 1 != 0) as usize + (c.span_events & 2 != 0) as usize + (c.span_events & 4 != 0) as usize + (c.span_events & 8 != 0) as usize;
-    let expected_records = per_span * c.depth as usize + 1 + usize::from(c.depth >= 2);
+    let expected_records = per_span * c.depth as usize + 1 + 2 * usize::from(c.depth >= 2);
     let makes: Vec<&WEv> = log.iter().filter(|e| e.kind == "make_for" || e.kind == "make").collect();
     let writes: Vec<&WEv> = log.iter().filter(|e| e.kind == "write").collect();
     if makes.len() != expected_records || writes.len() != expected_records {
@@ -541,6 +556,24 @@ fn check_shape(c: &ShapeCfg) -> (u64, Vec<String>) {
             "xp_event" => Some(1),
             _ => None,
         };
+        if name == "later_event" {
+            // every span in scope with its fields as they are now, including the value recorded
+            // on s1 after earlier records from the same spans were formatted
+            let late = match c.format {
+                2 => "late: 7",
+                3 => "\"late\":7",
+                _ => "late=7",
+            };
+            if !rec.contains(late) {
+                bad.push(format!("the record of the event emitted after s1.record(late = 7) lacks {:?}: {:?}", late, rec));
+            }
+            for k in 0..3usize.min(c.depth as usize) {
+                let needle = span_field_needle(c.format, k);
+                if !(rec.replace(": \"", ":\"").contains(&needle) || rec.contains(&needle)) {
+                    bad.push(format!("the record of later_event lacks {} of the span in its scope: {:?}", needle, rec));
+                }
+            }
+        }
         if let Some(n) = in_scope {
             for k in 0..3usize.min(c.depth as usize) {
                 let needle = span_field_needle(c.format, k);
